@@ -249,7 +249,8 @@ def build():
         "tree_consistent(T, r, d), hypothesis of the agreement lemmas (what C06 proves about Tree.__init__, restated over positions): the child entries of a tree node w are exactly "
         "the recorded positions whose parent is w; the descendant entries of w are exactly the recorded positions with w in their ancestor chain; below the dummy root: the only "
         "child is the root (no parent / field / index), the descendants are all recorded positions; the root is the only member without parent; parents and chain members are "
-        "members; a chain is empty exactly for the root; every member's chain lies in the tree")
+        "members; a chain is empty exactly for the root; every member's chain lies in the tree. Checked natively, clause by clause, on every tree the bounded runs "
+        "rt.c06 (all model trees up to the size bound) and rt.c07 enumerate")
     world.trusted_notes.append("reversed_steps (list reversal by cons / snoc) is what list(reversed(...)) computes in ASTXpath.__init__ (reversed_elements there)")
     reg = Registry()
     return world, lib, reg, L
